@@ -11,6 +11,9 @@
   C04-KEYS     _setup_srtp / get_key_and_salt evaluated for the three profiles and both roles: tx/rx keys are the RFC 5764
                client/server slices, mirrored between roles; exported length 2*(key+salt); profile constants
   C04-DROP     SRTP authentication failures deliver nothing
+  C04-DEMUX    the first-byte demultiplexer of _recv_next, evaluated for all 256 byte values, implements RFC 7983 (20-63 DTLS,
+               128-191 SRTP/SRTCP incl. padding/extension bits); is_rtcp classifies the six RTCP types as RTCP and no RTP packet
+               with a negotiable payload type as RTCP
 Does not decide: that OpenSSL/libsrtp behave as documented; end-to-end payload integrity.
 """
 from __future__ import annotations
